@@ -1,3 +1,4 @@
+import oracle_storage
 import corr_cache
 import oracle_cache
 
@@ -20,8 +21,12 @@ def oracle_c10(seed, tier):
     return oracle_cache.check_c10(seed, tier)
 
 
+def oracle_storage_kinds(seed, tier):
+    return oracle_storage.check(seed, tier)
+
+
 def checks(tier):
-    return [corr_flow,corr_codec, oracle_c10]
+    return [corr_flow,corr_codec, oracle_c10, oracle_storage_kinds]
 
 
 def replay(payload):
